@@ -373,3 +373,55 @@ func (c *Ctx) runHand(tag string, cases []handCase) {
 		}
 	})
 }
+
+
+// handFiles: a hand-written program of several files (main.zn imports the others) with its
+// expected outcome written down (same notation as handCase)
+type handFiles struct {
+	name  string
+	files map[string]string
+	want  string
+}
+
+func (c *Ctx) runHandFiles(tag string, cases []handFiles) {
+	reqs := []Req{}
+	for _, h := range cases {
+		fl := []File{}
+		libs := false
+		for _, p := range SortedKeys(h.files) {
+			fl = append(fl, File{Path: p, Data: widen([]byte(h.files[p]))})
+			libs = libs || strings.Contains(h.files[p], "导入《@")
+		}
+		reqs = append(reqs, Req{Op: "exec", Main: "main.zn", Files: fl, Libs: libs, EvalBudget: 200000, ParseBudget: 200000})
+	}
+	c.runBatches(reqs, 8, func(i int, req *Req, resp *Resp) {
+		c.Eval()
+		h := cases[i]
+		got := resp.Kind
+		if resp.Kind == "value" && resp.Val != nil {
+			got = resp.Val.String()
+		} else if resp.Kind == "error" && resp.Err != nil {
+			got = fmt.Sprintf("error:%d", resp.Err.Code)
+		}
+		c.Nontrivial(tag + "|" + h.name + "|" + resp.Kind)
+		c.Count("hand_written_multi_file_programs", 1)
+		ok := false
+		for _, w := range strings.Split(h.want, "|") {
+			if got == w || (w == "error:*" && resp.Kind == "error") {
+				ok = true
+			}
+		}
+		all := ""
+		for _, p := range SortedKeys(h.files) {
+			all += "--- " + p + "\n" + h.files[p]
+		}
+		quiescent(c, tag, h.name, all, resp)
+		if !ok {
+			detail := ""
+			if resp.Err != nil {
+				detail = " (" + resp.Err.Msg + ")"
+			}
+			c.Violation(tag+":"+h.name, fmt.Sprintf("%s/%s: the program yields %s%s, expected %s\n%s", tag, h.name, got, detail, h.want, all), map[string]interface{}{"req": req})
+		}
+	})
+}
